@@ -236,6 +236,13 @@ def one_run(x, root, case, expected, direct, schedule, default="rr"):
                 miss = cp.missing_results()
                 seen = dict(obs["isfile"])
                 reported.append(("missing", tuple(miss), seen))
+                # whatever the query looked at: a batch it calls finished has
+                # a complete result file by the time it returns (completion
+                # never goes away again)
+                with fsx.bypass():
+                    after = complete_ids(root, expected)
+                reported.append(("missing-after", tuple(miss),
+                                 sorted(after)))
                 fin = set(range(1, B + 1)) - set(miss)
                 reported.append(("regress", sorted(finished_before - fin)))
                 finished_before |= fin
@@ -291,6 +298,13 @@ def one_run(x, root, case, expected, direct, schedule, default="rr"):
                     require(comp, "partial-result-not-missing",
                             f"missing_results()={miss} treats batch {i} as "
                             f"finished while its file was incomplete")
+        elif rec[0] == "missing-after":
+            _, miss, after = rec
+            early = sorted(set(range(1, B + 1)) - set(miss) - set(after))
+            require(not early, "partial-result-not-missing",
+                    f"missing_results()={miss} treats batches {early} as "
+                    f"finished; complete result files when it returned: "
+                    f"{after}")
         elif rec[0] == "regress":
             require(not rec[1], "finished-batch-missing-again",
                     f"batches {rec[1]} were reported finished and later "
